@@ -29,6 +29,8 @@ Fixpoint pp_p (en : env) (props : list string) (ind : nat) (p : prog) : string :
   | PWhile c a r => indent ind ++ "repeat while " ++ while_cond_text en c ++ "
 " ++ pp_p en props (S ind) a ++ indent ind ++ "end repeat
 " ++ pp_p en props ind r
+  | PExit _ r => indent ind ++ "exit repeat
+" ++ pp_p en props ind r
   end.
 
 Fixpoint text_ok_p (en : env) (props : list string) (p : prog) : Prop :=
@@ -38,18 +40,19 @@ Fixpoint text_ok_p (en : env) (props : list string) (p : prog) : Prop :=
   | PIf c a r => text_ok en c /\ text_ok_p en props a /\ text_ok_p en props r
   | PIfE c a eb r => text_ok en c /\ eb <> PNil /\ text_ok_p en props a /\ text_ok_p en props eb /\ text_ok_p en props r
   | PWhile c a r => text_ok en c /\ text_ok_p en props a /\ text_ok_p en props r
+  | PExit _ r => text_ok_p en props r
   end.
 
 Definition text_of (sts : list node) (ind : nat) : string := concat_all (map (fun st => gen_lingo st ind) sts).
 
 Lemma items_ne en props pc p : p <> PNil -> fins (items en props pc p) <> [].
-Proof. destruct p; [congruence | discriminate | discriminate | discriminate | discriminate]. Qed.
+Proof. destruct p; [congruence | discriminate | discriminate | discriminate | discriminate | discriminate]. Qed.
 
 Theorem nest_text en props : forall p, text_ok_p en props p -> forall pc ind,
   text_of (rebuilt en props pc p) ind = pp_p en props ind p.
 Proof.
   unfold rebuilt, text_of.
-  induction p as [|s r IH|c a IHa r IHr|c a IHa eb IHe r IHr|c a IHa r IHr]; intros Hok pc ind.
+  induction p as [|s r IH|c a IHa r IHr|c a IHa eb IHe r IHr|c a IHa r IHr|xoff r IH]; intros Hok pc ind.
   - reflexivity.
   - destruct Hok as [Hs Hr]. cbn [items fins fin_i map concat_all pp_p]. rewrite (stmt_line en props s Hs pc ind), (IH Hr).
     repeat rewrite sappend_assoc. reflexivity.
@@ -75,5 +78,7 @@ Proof.
     pose proof (IHr Hr (pc + zlen (compile_e c) + 3 + zlen (compile_p a) + 2)%Z ind) as Er. unfold gen_lingo in Er. rewrite Er.
     change (String.eqb "while" "while") with true. cbn iota.
     unfold while_cond_text, cond_text. repeat rewrite sappend_assoc. reflexivity.
+  - cbn [items fins fin_i map concat_all pp_p text_ok_p] in *. rewrite (IH Hok). unfold gen_lingo. cbn [gen_lingo_sp].
+    repeat rewrite sappend_assoc. reflexivity.
 Qed.
 Print Assumptions nest_text.
